@@ -71,7 +71,6 @@ theorem endStep_acc_mono (cfg : Cfg) (mss : Nat) (e o : End) (a : Act) :
         · dsimp only; split <;> simp
     · simp
   | abort b => simp [endStep]
-  | probe => simp only [endStep]; split <;> simp
   | emitCtl sg => simp only [endStep]; split <;> simp
 
 theorem step_inv (cfg : Cfg) (mss : Nat) (p : Pair) (who : Bool) (a : Act) (h : PInv p)
@@ -358,12 +357,14 @@ def staleWindow_committed9 : List Op :=
     .egress, .egress, .egress, .read 1 1]
 
 /-- The same application calls and the same reordering on the committed tree: the third silent egress
-    emits the persist probe (packet 6), its delivery draws the current window (packet 7). -/
+    emits the persist probe (packet 6: empty, `seq = snd_una − 1`), its delivery draws the receiver's
+    current ACK and window (packet 7, sent from `snd_max`), the second byte follows (8) and is
+    acknowledged (9). -/
 def fixed_staleWindow : List Op :=
     [.listen 1 0 ⟨.host 1 false, 9000⟩, .connect 0 0 0 ⟨.host 1 false, 9000⟩, .egress, .deliver 0, .egress,
     .deliver 1, .cpoll 0 0, .egress, .deliver 2, .accept 0 1, .write 0 [1, 2], .egress, .deliver 3,
     .egress, .read 1 1, .egress, .deliver 5, .deliver 4, .egress, .egress, .egress, .deliver 6, .egress,
-    .deliver 7, .egress, .egress, .egress, .egress, .read 1 1]
+    .deliver 7, .egress, .deliver 8, .egress, .deliver 9, .egress, .egress, .read 1 1]
 
 set_option maxRecDepth 100000 in
 /-- F-C06-4 on the tree with all nine earlier repairs (`Cfg.committed9`): still refuted — a stale
@@ -373,47 +374,100 @@ theorem witness_F_C06_4_committed9 : ¬ C06_Live_Statement { Cfg.committed9 with
   exact absurd (h staleWindow_committed9) (by decide)
 
 set_option maxRecDepth 100000 in
-/-- With the repair (`fixPersistProbe`: every `retx_threshold` egress passes a sender with unsent
-    data, nothing in flight and a zero window sends its first unsent byte at `snd_nxt` without
-    advancing `snd_nxt`; `snd_max` covers it) the same scenario completes on the committed tree: the
-    probe is accepted (the window was open), its ACK is valid thanks to SND.MAX, and the reader gets
-    the second byte. Within budget, quiescent. -/
+/-- With the repair (`fixPersistProbe`: every `retx_threshold` egress passes a sender with something
+    to send, nothing in flight and a zero window emits an empty segment with `seq = snd_una − 1`; the
+    receiver answers an empty segment before `rcv_nxt` with its current ACK and window) the same
+    scenario completes on the committed tree: the reader gets the second byte. Within budget,
+    quiescent. Nothing was ever emitted beyond the advertised window (`Spec.windowOk`, the unchanged
+    C16 oracle, holds on this history). -/
 theorem fixed_F_C06_4 :
     let cfg : Cfg := { Cfg.committed with recvCap := 1 }
     Spec.c06Liveness cfg (Spec.modelHistory cfg 2 fixed_staleWindow) = none ∧
     ((Sys.init cfg 2).run fixed_staleWindow).2.getLast? = some [Obs.okBytes [2]] ∧
     Spec.withinBudget cfg (Spec.modelHistory cfg 2 fixed_staleWindow) = true ∧
-    Spec.trailingQuiet (Spec.modelHistory cfg 2 fixed_staleWindow) ≥ 4 := by
-  refine ⟨by decide, by decide, by decide, by decide⟩
+    Spec.trailingQuiet (Spec.modelHistory cfg 2 fixed_staleWindow) ≥ 2 ∧
+    Spec.windowOk (Spec.modelHistory cfg 2 fixed_staleWindow) = true := by
+  refine ⟨by decide, by decide, by decide, by decide, by decide⟩
 
-/-- The persist probe at TCB level, for every state: it is sent only with something to send, nothing
-    in flight and a zero window; it leaves `snd_nxt`, the buffers and the retransmit counters alone
-    (so the socket does not become a retransmit candidate and `retx_max` is never charged: a slow
-    reader is never aborted); and the ACK of the probed byte is then valid (SND.MAX). -/
-theorem persist_probe_facts (t : Tcb) (h : t.persistCandidate = true) :
-    t.sndWnd = 0 ∧ t.sndUna = t.sndNxt ∧
-    t.probed.sndNxt = t.sndNxt ∧ t.probed.sndUna = t.sndUna ∧ t.probed.sendBuf = t.sendBuf ∧
-    t.probed.retxAttempts = t.retxAttempts ∧ t.probed.egressSinceAck = t.egressSinceAck ∧
-    (t.probed.retxCandidate = true → t.isHandshake = true) ∧
-    (t.sndUna < M32 → t.sndMax = t.sndUna → t.probed.ackValid true (wadd t.sndUna 1) = true) := by
-  unfold Tcb.persistCandidate at h
-  simp only [Bool.and_eq_true, beq_iff_eq, Bool.or_eq_true, Bool.not_eq_true'] at h
-  obtain ⟨⟨⟨_, hw⟩, hidle⟩, _⟩ := h
-  refine ⟨hw, hidle, rfl, rfl, rfl, rfl, rfl, ?_, ?_⟩
-  · intro hc
-    unfold Tcb.retxCandidate Tcb.probed at hc
+/-- The persist probe, for every state.
+    (1) The probe carries no payload, no FIN / SYN / RST, and sits one sequence number before `snd_una`.
+    (2) It is sent only with a zero window and nothing in flight, and such a socket is not a
+        retransmit candidate; the sweep changes nothing but its own tick counter, so the socket stays
+        no candidate and `retx_max` is never charged (a slow reader is never aborted).
+    (3) It elicits the current window: a receiver in any `handle_established` state answers every
+        empty segment that lies before `rcv_nxt` with a pure ACK of its `rcv_nxt` carrying
+        `advertised_window(recv_buf_cap, |recv_buf|)`, sent from `snd_max`, and accepts nothing. -/
+theorem persist_probe_facts (cfg : Cfg) (hfix : cfg.fixPersistProbe = true) :
+    (∀ (t : Tcb) (cap p : Nat), (t.probeSeg cap p).payload = [] ∧ (t.probeSeg cap p).flags.fin = false ∧
+        (t.probeSeg cap p).flags.syn = false ∧ (t.probeSeg cap p).flags.rst = false ∧
+        (t.probeSeg cap p).seq = wsub t.sndUna 1) ∧
+    (∀ (t : Tcb) (n : Nat), t.persistCandidate = true →
+        t.sndWnd = 0 ∧ t.inFlight = 0 ∧ (t.retxCandidate = true → t.isHandshake = true) ∧
+        ({ t with persistTicks := n } : Tcb).retxCandidate = t.retxCandidate ∧
+        ({ t with persistTicks := n } : Tcb).retxAttempts = t.retxAttempts ∧
+        ({ t with persistTicks := n } : Tcb).sndNxt = t.sndNxt ∧ ({ t with persistTicks := n } : Tcb).sndMax = t.sndMax) ∧
+    (∀ (r : Tcb) (sg : Seg) (a b : Nat), sg.payload = [] → sg.flags.fin = false → sg.flags.syn = false →
+        wsub r.rcvNxt sg.seq ≠ 0 → wsub r.rcvNxt sg.seq < 2147483648 →
+        (r.handleEstablished cfg sg).2 = true ∧
+        (r.handleEstablished cfg sg).1.recvBuf = r.recvBuf ∧ (r.handleEstablished cfg sg).1.rcvNxt = r.rcvNxt ∧
+        ((r.handleEstablished cfg sg).1.replySeg cfg sg a b).payload = [] ∧
+        ((r.handleEstablished cfg sg).1.replySeg cfg sg a b).ack = r.rcvNxt ∧
+        ((r.handleEstablished cfg sg).1.replySeg cfg sg a b).window = advWindow cfg.recvCap r.recvBuf.length ∧
+        ((r.handleEstablished cfg sg).1.replySeg cfg sg a b).seq = (r.handleEstablished cfg sg).1.sndMax) := by
+  refine ⟨fun t cap p => ⟨rfl, rfl, rfl, rfl, rfl⟩, ?_, ?_⟩
+  · intro t n h
+    unfold Tcb.persistCandidate at h
+    simp only [Bool.and_eq_true, beq_iff_eq, Bool.or_eq_true, Bool.not_eq_true'] at h
+    obtain ⟨⟨⟨_, hw⟩, hidle⟩, _⟩ := h
+    refine ⟨hw, by unfold Tcb.inFlight; rw [hidle, wsub_self], ?_, rfl, rfl, rfl, rfl⟩
+    intro hc
+    unfold Tcb.retxCandidate at hc
     simp only [Bool.or_eq_true, Bool.and_eq_true, bne_iff_ne, ne_eq] at hc
     rcases hc with hc | ⟨_, hne⟩
     · exact hc
     · exact absurd hidle hne
-  · intro hlt hmx
-    unfold Tcb.ackValid Tcb.ackBound Tcb.probed
-    simp only [if_true]
-    have e0 : wadd t.sndUna 0 = t.sndUna := wadd_zero _ hlt
-    have e1 : wsub (wadd t.sndUna 1) t.sndUna = 1 := by
-      rw [wsub_wadd t.sndUna t.sndUna 1 hlt hlt (by rw [wsub_self]; unfold M32; omega), wsub_self]
-    rw [e1, if_pos (by simpa using hmx), ← hidle, e1]
-    simp
+  · intro r sg a b hp hf hs hne hlt
+    -- data and FIN processing are the identity on an empty, FIN-less segment
+    have hal : ∀ t : Tcb, Tcb.acceptLen cfg.recvCap t sg = 0 := by
+      intro t; unfold Tcb.acceptLen; rw [hp]; simp
+    have hhe : (r.handleEstablished cfg sg).1 = r.onAck cfg.fixSndMax sg := by
+      unfold Tcb.handleEstablished
+      dsimp only
+      unfold Tcb.onData
+      dsimp only
+      rw [hal]
+      simp only [Nat.lt_irrefl, if_false]
+      unfold Tcb.onFin
+      rw [hf]
+      simp
+    have hrb : (r.onAck cfg.fixSndMax sg).recvBuf = r.recvBuf ∧ (r.onAck cfg.fixSndMax sg).rcvNxt = r.rcvNxt := by
+      unfold Tcb.onAck
+      split
+      · split <;> exact ⟨rfl, rfl⟩
+      · exact ⟨rfl, rfl⟩
+    have hod : (r.onAck cfg.fixSndMax sg).oldDup sg = true := by
+      unfold Tcb.oldDup
+      rw [hrb.2, hp, hf, hs]
+      simp [hne, hlt]
+    have h2 : (r.handleEstablished cfg sg).2 = true := by
+      unfold Tcb.handleEstablished
+      dsimp only
+      unfold Tcb.onData
+      dsimp only
+      rw [hal]
+      simp only [Nat.lt_irrefl, if_false]
+      unfold Tcb.onFin
+      rw [hf]
+      simp only [Bool.false_eq_true, false_and, if_false]
+      rw [hfix, hod]
+      simp
+    rw [hhe]
+    refine ⟨h2, hrb.1, hrb.2, ?_, ?_, ?_, ?_⟩
+    all_goals (unfold Tcb.replySeg; rw [hfix, hod]; simp only [Bool.and_self, if_true])
+    · rfl
+    · exact hrb.2
+    · show advWindow cfg.recvCap (r.onAck cfg.fixSndMax sg).recvBuf.length = _
+      rw [hrb.1]
 
 def witness_lostLastAck : List Op :=
     [.listen 1 0 srv, .connect 0 0 0 srv, .egress, .deliver 0, .egress, .deliver 1, .cpoll 0 0,
@@ -561,13 +615,15 @@ theorem witness_F_C06_8 :
   exact absurd (h witness_ackAboveNxt) (by decide)
 
 set_option maxRecDepth 100000 in
-/-- On the committed tree (the repair is `fixSndMax`: the TCB keeps SND.MAX, a cumulative ACK is
+/-- On the tree with this repair (`Cfg.committed8`, /repo 7797aa0; the history uses explicit packet ids,
+    which later repairs that add packets — the persist probes — renumber; the repair is `fixSndMax`: the
+    TCB keeps SND.MAX, a cumulative ACK is
     valid up to it, and an ACK that passes the rewound `snd_nxt` pulls it up) the very same history
     — same application calls, same wire schedule, no id re-derived — passes the liveness oracle, and
     not vacuously: it is within the fault budget, ends quiescent, the connection is not aborted and
     the reader has been handed bytes of the 40-byte write that it never saw before the repair. -/
 theorem fixed_F_C06_8 :
-    let cfg : Cfg := { cfgCommitted with sendCap := 64, recvCap := 8, backlog := 4, retxThreshold := 1 }
+    let cfg : Cfg := { Cfg.committed8 with sendCap := 64, recvCap := 8, backlog := 4, retxThreshold := 1 }
     Spec.c06Liveness cfg (Spec.modelHistory cfg 2 witness_ackAboveNxt) = none ∧
     Spec.withinBudget cfg (Spec.modelHistory cfg 2 witness_ackAboveNxt) = true ∧
     Spec.trailingQuiet (Spec.modelHistory cfg 2 witness_ackAboveNxt) ≥ 2 := by
@@ -604,7 +660,7 @@ def LiveWF (cfg : Cfg) (mss : Nat) : Bool :=
 
 theorem linv_init (cfg : Cfg) (isnX isnY wndX wndY : Nat) (h1 : 1 ≤ wndX) (h2 : wndX ≤ advWindow cfg.recvCap 0) :
     LInv cfg (Pair.init isnX isnY wndX wndY) :=
-  ⟨rfl, rfl, rfl, rfl, rfl, rfl, wadd_lt _ _, h1, h2, rfl, rfl, rfl, rfl, rfl, rfl, rfl, rfl, rfl, rfl, rfl, rfl⟩
+  ⟨rfl, rfl, rfl, rfl, rfl, rfl, wadd_lt _ _, h1, h2, rfl, rfl, rfl, rfl, rfl, rfl, rfl, rfl, rfl, rfl, rfl, rfl, rfl⟩
 
 /-- **C06 liveness on a network that loses nothing and delivers in order** (unbounded: any amount
     of data, any configuration with `LiveWF`). Two established endpoints, `x` writes `data` (any
